@@ -130,17 +130,19 @@ NOT_APPLICABLE = {}
 # ---- additions of the build session (appended to the level texts by mkmanifest.py, also for checks whose
 # manifest entry lives in checks/*.manifest.json)
 ADDITIONS = {
-    "C01": (" Mechanism level: V1AckChain.tla and V2MultiAck.tla are model-checked exhaustively, and every complete voting "
+    "C01": (" Every complete answer history TLC exports from V1AckChain.tla (budgets, a failing forward / dead-letter write at every "
+    "place) is replayed on the REAL FanoutNode / SourceAckerNode / DLQHandlerNode and the forwards to the source connector and the "
+    "dead-letter writes are compared. Mechanism level: V1AckChain.tla and V2MultiAck.tla are model-checked exhaustively, and every complete voting "
     "history TLC exports from V2MultiAck.tla (single positions and runs, any parent call failing, votes continuing after a failure) is "
     "replayed on the REAL v2 fan-out arbiter (verif-tagged hook) with calls, return values and release cursor compared. Scenario families: "
     "TLC schedules, corner histories, exhaustive choice exploration (incl. a mid-batch rejection under fan-out with a failing dead-letter "
     "write), the outcome x fault matrix (every outcome vector of a 3-record flow x one of 32 boundary faults incl. io.EOF / context.Canceled "
     "identities, position-write failures, stops with a DLQ write in flight), seeded random."),
-    "C04": (" Also: chained processors, the holes family (one batch of 5..9 records through two chained processors, every "
+    "C04": (" The V1AckChain histories are replayed on the real v1 ack chain (as C01). Also: chained processors, the holes family (one batch of 5..9 records through two chained processors, every "
     "subset of one or two records taken out by the first), the outcome x fault matrix focused on ack-path faults (position write begin / "
     "set / commit failures, empty positions, ack stream failures) and the V2MultiAck histories replayed on the real fan-out arbiter."),
     "C05": " Families as C04, incl. the holes family over batches of 5..9 records.",
-    "C07": (" The rejection patterns include filtered records (positive outcomes of the window); the outcome x fault matrix is "
+    "C07": (" The V1AckChain histories (tolerated-nack budgets, failing dead-letter writes) are replayed on the real v1 ack chain. The rejection patterns include filtered records (positive outcomes of the window); the outcome x fault matrix is "
     "focused on DLQ faults (DLQ stream ending with io.EOF / context.Canceled / plain errors, stops with a dead-letter write in flight) and "
     "DlqStops is evaluated at the end of every run nobody stopped."),
     "C08": " Also the holes family (batches of 5 and 8 records through two chained processors).",
